@@ -94,8 +94,13 @@ void run_d(Input const& in, Ctx& ctx) {
 			auto pout = vp::ops::last_parent<cplx>();
 			std::vector<cplx> before(pout.first, pout.first + pout.second);
 			std::vector<cplx> in_before(pin.first, pin.first + pin.second);
-			if((in.head(9) & 4U) != 0) { if(sign < 0) { multi::fftw::dft_forward(whicha, std::as_const(vin), vout); } else { multi::fftw::dft_backward(whicha, std::as_const(vin), vout); } }
-			else { multi::fftw::dft(whicha, std::as_const(vin), vout, sgn); }
+			// the front ends are overload sets: the input is passed as a const view or as the (named, non-const) view itself, the mask always as a named std::array
+			bool const const_in = (in.head(9) & 8U) == 0;
+			ctx.label(const_in ? "input_const" : "input_mutable_lvalue");
+			if((in.head(9) & 4U) != 0) {
+				if(sign < 0) { if(const_in) { multi::fftw::dft_forward(whicha, std::as_const(vin), vout); } else { multi::fftw::dft_forward(whicha, vin, vout); } }
+				else         { if(const_in) { multi::fftw::dft_backward(whicha, std::as_const(vin), vout); } else { multi::fftw::dft_backward(whicha, vin, vout); } }
+			} else { if(const_in) { multi::fftw::dft(whicha, std::as_const(vin), vout, sgn); } else { multi::fftw::dft(whicha, vin, vout, sgn); } }
 			auto got = read(vout);
 			for(long i = 0; i < n; ++i) { VP_CHECK(std::abs(got[static_cast<std::size_t>(i)] - want[static_cast<std::size_t>(i)]) <= tol, "fft/value", "result element " << i << " is " << got[static_cast<std::size_t>(i)] << ", direct DFT gives " << want[static_cast<std::size_t>(i)]); }
 			guard_check(vout, pout, before, "out-of-place transform");
